@@ -172,10 +172,13 @@ def run(ctx: Ctx) -> None:
     f = ctx.func(f"{C.MESSAGE}.__init__")
     st = [n for n in ast.walk(f.node) if isinstance(n, ast.Assign) and any(dotted(t) == "self._category" for t in n.targets)]
     ctx.floor("R-C16-CATEGORY", len(st), 1, "stores of self._category in Message.__init__")
-    for s in st:
-        ctx.check("_category" in C.names_in(s.value), "R-C16-CATEGORY", f, "self._category = ... in Message.__init__",
-                  "category stored from the constructor argument",
-                  "Message.__init__ does not keep the category it was constructed with", node=s, instance="Message.__init__: category kept")
+    keeps = [s for s in st if "_category" in C.names_in(s.value)]
+    others = [s for s in st if s not in keeps]
+    # besides the store of the argument only the NORMAL default (for "no category given") may be stored
+    ok = bool(keeps) and all(dotted(s.value) == "MessageCategory.NORMAL" for s in others)
+    ctx.check(ok, "R-C16-CATEGORY", f, "self._category = ... in Message.__init__",
+              "category stored from the constructor argument (NORMAL when none was given)",
+              f"Message.__init__ does not keep the category it was constructed with (stores {[unparse(s.value) for s in st]})", node=st[0], instance="Message.__init__: category kept")
     prop = ctx.func(f"{C.MESSAGE}.category")
     rets = [n for n in ast.walk(prop.node) if isinstance(n, ast.Return)]
     ctx.check(len(rets) == 1 and dotted(rets[0].value) == "self._category", "R-C16-CATEGORY", prop, "Message.category returns self._category",
